@@ -447,8 +447,16 @@ def run(ctx):
             d["kind"] == "gen" or d["recv"] == "Resolver" or (d["recv"].endswith("Resolver") and not d["name"].startswith("helper"))
             for f in o["before"] if f["name"].endswith("resolvers.go") or f["name"] == "resolver.go" for d in f["decls"])
         if o["addOnly"] and prev_ok.get(key, True) and only_methods and o["genErr"] and not viol:
-            ctx.violation({"kind": "spec", "shape": {"kind": "compile-broken-by-add-only-change"}, "error": o["genErr"], "ops": o["ops"],
-                           "replay": replay, "failing_input": {"before": o["before"], "schema": o["schema"]}})
+            cshape = {"kind": "compile-broken-by-add-only-change", "cause": "other"}
+            # F19g: the stub of a NEW field calls fmt.Errorf while one of its parameters (schema argument `fmt`) is called fmt
+            stubs = [d for f in o["after"] for d in f["decls"] if d["kind"] == "func" and d["hasBody"] and "not implemented" in d["inner"]
+                     and re.search(r"[(,]\s*fmt\s+[\w*.\[\]]+\s*[,)]", d["hdr"])]
+            if stubs and re.search(r"fmt\.Errorf undefined \(type ", o["genErr"]) and \
+                    not [l for l in o["genErr"].split("\n") if ".go:" in l and "fmt.Errorf undefined" not in l and "missing return" not in l]:
+                cshape["cause"] = "stub-calls-fmt.Errorf-with-a-parameter-named-fmt"
+            ctx.violation({"kind": "spec", "shape": cshape, "error": o["genErr"], "ops": o["ops"],
+                           "replay": replay, "failing_input": {"stub": [{"signature": d["hdr"].strip(), "body": d["inner"]} for d in stubs][:3],
+                                                               "before": o["before"], "schema": o["schema"]}})
             spec_fail = True
         prev_ok[key] = not o["genErr"]
         for d in div[:3]:
